@@ -17,10 +17,10 @@
 
 //@ fn src/wasm.rs :: WasmKeeper :: build_app_response
 //@   ret r
-//@   ensures [C04.build.events] r.0.events@ == build_events(*contract, custom_event, response.attributes@, response.events@)
+//@   ensures [C04.build.events,C13] r.0.events@ == build_events(*contract, custom_event, response.attributes@, response.events@)
 //@   ensures [C04.build.data] r.0.data == response.data && r.1 == response.messages
 //@   begin broadcast use {axiom_vec_canon, axiom_vec_of_view, axiom_str_canon, axiom_str_of_view}; proof { axiom_vec_len(response.events); }
-//@   replace_re? "let wasm_events = (?P<E>events\\.into_iter\\(\\))\\.map\\(\\|mut (?P<X>\\w+)\\| \\{(?P<B>.*?)\\n\\s*(?P=X)\\n\\s*\\}\\);\\s*app_events\\.extend\\(wasm_events\\);" => "let ghost vx_pre = app_events@;\n for \\g<X> in vx_it: \\g<E>\n invariant /*VXCLAUSE C04.build.loop_inv*/ (vx_it.seq() == events@ && app_events@ == vx_pre + Seq::new(vx_it.index@ as nat, |i: int| wasm_custom_event(*contract, events@[i]))),\n { let mut \\g<X> = \\g<X>; let ghost vx_e0 = \\g<X>; \\g<B>\n proof { assert(\\g<X>.attributes@.subrange(1, \\g<X>.attributes@.len() as int) =~= vx_e0.attributes@); lemma_wasm_custom_event(vx_e0, \\g<X>, *contract); assert(app_events@.push(\\g<X>) =~= vx_pre + Seq::new((vx_it.index@ + 1) as nat, |i: int| wasm_custom_event(*contract, events@[i]))); } app_events.push(\\g<X>); }"
+//@   replace_re? "let wasm_events = (?P<E>events\\.into_iter\\(\\))\\.map\\(\\|mut (?P<X>\\w+)\\| \\{(?P<B>.*?)\\n\\s*(?P=X)\\n\\s*\\}\\);\\s*app_events\\.extend\\(wasm_events\\);" => "let ghost vx_pre = app_events@;\n for \\g<X> in vx_it: \\g<E>\n invariant /*VXCLAUSE C04.build.loop_inv,C13*/ (vx_it.seq() == events@ && app_events@ == vx_pre + Seq::new(vx_it.index@ as nat, |i: int| wasm_custom_event(*contract, events@[i]))),\n { let mut \\g<X> = \\g<X>; let ghost vx_e0 = \\g<X>; \\g<B>\n proof { assert(\\g<X>.attributes@.subrange(1, \\g<X>.attributes@.len() as int) =~= vx_e0.attributes@); lemma_wasm_custom_event(vx_e0, \\g<X>, *contract); assert(app_events@.push(\\g<X>) =~= vx_pre + Seq::new((vx_it.index@ + 1) as nat, |i: int| wasm_custom_event(*contract, events@[i]))); } app_events.push(\\g<X>); }"
 //@   replace? "ev.ty = format!(\"wasm-{}\", ev.ty);" => "ev.ty = fmt_wasm_prefix(&ev.ty);"
 //@   after? "app_events.push(custom_event);" proof { assert(app_events@ =~= seq![custom_event]); }
 //@   after? "app_events.push(wasm_event);" proof { assert(wasm_event.attributes@.subrange(1, wasm_event.attributes@.len() as int) =~= attributes@); lemma_wasm_attr_event(wasm_event, *contract, attributes@); assert(app_events@ =~= seq![custom_event] + seq![wasm_attr_event(*contract, attributes@)]); }
